@@ -27,6 +27,7 @@ func init() {
 			{"C14.server-loop", "protocol server ends a session with nil only on GOODBYE/cancel; MISSING continues", 2, c14ServerLoop},
 			{"C14.has-missing", "backend HasChunk reports a missing chunk as (false, nil)", 5, c14HasMissing},
 			{"C14.raw-storage", "a chunk's stored bytes are passed on unconverted only where the converters match", 1, func(c *Ctx) { c.rawStorageGuarded() }},
+			{"C14.converters-equal", "Converters.equal answers true only for lists of equal length", 2, c14ConvertersEqual},
 			{"C14.converters", "converter layers forward on store, backward on read", 3, c14Converters},
 		},
 	})
@@ -947,4 +948,55 @@ func c14RetryThresholds(c *Ctx) {
 		{"budget", map[string]int{"StoreOptions.ErrorRetry": 1, attempt: -1}, 1, 1, "after the increment the loop gives up iff attempt >= ErrorRetry (at most max(1, ErrorRetry) requests)"},
 		{"5xx", map[string]int{status: 1}, 0, 2, "a status is retried iff 500 <= status < 600"},
 	}, map[string][]int64{"5xx": {499, 599}})
+}
+
+// c14ConvertersEqual: Converters.equal is an equality: it answers true only when both lists have
+// the same length (and each layer equals its counterpart).  It licenses passing a chunk's stored
+// bytes on unconverted (C14.raw-storage); a one-sided prefix test would call {Compressor} equal
+// to {} and compressed servers would hand out uncompressed bytes under a compressed name.
+func c14ConvertersEqual(c *Ctx) {
+	fn := c.mustFn("Converters.equal")
+	if fn == nil {
+		return
+	}
+	isLenCmp := func(cond ssa.Value) (eqOnTrue bool, ok bool) {
+		cm, truth, isCmp := cmpOf(cond)
+		if !isCmp || (cm.op != token.EQL && cm.op != token.NEQ) {
+			return false, false
+		}
+		a, b := linearB(cm.x, 0).String(), linearB(cm.y, 0).String()
+		p0, p1 := "[1*len(param#0)]+0", "[1*len(param#1)]+0"
+		if !((a == p0 && b == p1) || (a == p1 && b == p0)) {
+			return false, false
+		}
+		return (cm.op == token.EQL) == truth, true
+	}
+	var bad []string
+	trues := 0
+	h := &Hooks{
+		MaxVisits: 2,
+		Branch: func(st *State, iff *ssa.If, taken bool) {
+			if eqOnTrue, ok := isLenCmp(iff.Cond); ok && taken == eqOnTrue {
+				st.Flags["len-equal"] = 1
+			}
+		},
+		Return: func(st *State, ret *ssa.Return, results []Val) {
+			if results[0].B == BFalse {
+				return
+			}
+			trues++
+			if st.Flags["len-equal"] == 0 {
+				bad = append(bad, fmt.Sprintf("return at %s can answer true without the lengths of the two lists having been found equal (trail %s)", c.pos(ret.Pos()), strings.Join(st.Trail, ">")))
+			}
+		},
+	}
+	Explore(fn, fn.Blocks[0], 0, nil, NewState(), h)
+	c.paths += h.Paths
+	if trues == 0 {
+		bad = append(bad, "no path answers true")
+	}
+	c.report("Converters.equal:length", fn, bad, fmt.Sprintf("%d path(s) can answer true, all behind len(s)==len(c)", trues))
+	// every layer is compared
+	n := len(calls(fn, named("(desync.converter).equal")))
+	c.verdict(n >= 1, "Converters.equal:layers", fn.Pos(), "layers are compared pairwise", "no pairwise comparison of the layers")
 }
